@@ -117,6 +117,10 @@ def run(ctx, prop):
         ctx.add_violation(sig, d, replay)
     for d in drift:
         ctx.add_drift(d)
+    nstuck = sum(1 for line in open(l1) if '"op":"stuck"' in line.replace(" ", ""))
+    ctx.notes["schedule_runs_not_judged_senders_unfinished"] = nstuck
+    if nstuck > max(3, len(scheds) // 10):
+        ctx.add_drift({"op": "stuck", "detail": "%d of %d schedule runs did not finish" % (nstuck, len(scheds))})
     ctx.assumptions += [
         "a Write call on a connection is atomic (TCP semantics); schedules are enumerated at the granularity of Write calls",
         "abstract sizes 1/3/5 stand for 120 B / 40 000 B / 70 000 B transactions (copy buffer 32 KiB)",
